@@ -177,6 +177,8 @@ pub fn run(rep: &Arc<Report>) {
     rep.set("api_variant_comparisons", json!(api_cmp));
     rep.set("api_variants", json!(api_variants));
     let (cx, cs) = run_constructs(rep);
+    let (em, _) = crate::props::exprapi::run(rep, &[crate::lex::Dialect::Sqlite]);
+    rep.set("expression_methods_evaluated_on_engine", json!(em));
     rep.set("construct_cases_executed_on_engine", json!(cx));
     rep.set("construct_cases_out_of_domain", json!(cs));
     let live = LIVE_CLASSES.lock().unwrap().clone();
@@ -220,6 +222,9 @@ pub fn run(rep: &Arc<Report>) {
 pub fn replay(case: &serde_json::Value) -> Option<String> {
     if case["kind"].as_str() == Some("api-variant") {
         return crate::props::apivar::replay(case);
+    }
+    if case["kind"].as_str() == Some("expr-method") {
+        return crate::props::exprapi::replay(case);
     }
     if case["kind"].as_str() == Some("construct") {
         let rep = Arc::new(Report::new("C07", "thorough"));
